@@ -44,21 +44,25 @@ def I(s):
 
 
 class Path:
-    """args = n: the n-th segment (1-based) carries the generic arguments `::<u8>` (only writable as the value of a
-    `crate = ..` option)."""
+    """args = n: the n-th segment (1-based) carries generic arguments `::<u8>` or, with argty = '', the empty list
+    `::<>` (only writable as the value of a `crate = ..` option)."""
 
-    def __init__(self, segs, leading=False, args=None):
+    def __init__(self, segs, leading=False, args=None, argty='u8'):
         self.segs = [I(s) if isinstance(s, str) else s for s in segs]
         self.leading = leading
         self.args = args
+        self.argty = argty
 
     def rust(self):
-        parts = [s.rust() + ('::<u8>' if self.args == i + 1 else '') for i, s in enumerate(self.segs)]
+        a = '::<%s>' % getattr(self, 'argty', 'u8')
+        parts = [s.rust() + (a if self.args == i + 1 else '') for i, s in enumerate(self.segs)]
         return ('::' if self.leading else '') + '::'.join(parts)
 
     def sexp(self):
         if self.args is not None:
-            return '(pa %d %d (t : : < u8 >) %s)' % (self.leading, self.args, ' '.join(s.sexp() for s in self.segs))
+            ty = getattr(self, 'argty', 'u8')
+            return '(pa %d %d (t : : < %s>) %s)' % (self.leading, self.args, ty + ' ' if ty else '',
+                                                    ' '.join(s.sexp() for s in self.segs))
         return '(p %d %s)' % (self.leading, ' '.join(s.sexp() for s in self.segs))
 
 
@@ -67,10 +71,11 @@ def P(s):
     return Path([x for x in s.lstrip(':').split('::')], lead)
 
 
-def PA(s, n=None):
-    """A path one of whose segments (default: the last) has generic arguments: `foo::<u8>`."""
+def PA(s, n=None, ty='u8'):
+    """A path one of whose segments (default: the last) has generic arguments: `foo::<u8>`, or `foo::<>` with ty=''."""
     p = P(s)
     p.args = n or len(p.segs)
+    p.argty = ty
     return p
 
 
